@@ -90,23 +90,22 @@ impl DateTime<Utc> {
 pub open spec fn strip_prefix_spec(k: Seq<char>, pre: Seq<char>) -> Option<Seq<char>> {
     if k.len() >= pre.len() && k.take(pre.len() as int) == pre { Some(k.skip(pre.len() as int)) } else { None }
 }
-/// a key of a TaskMap as handed out by `keys()` (a `&String` in the source; only `strip_prefix` is ever applied to it)
-pub struct TaskKey { pub s: String }
-impl TaskKey {
-    #[verifier::external_body]
-    pub fn strip_prefix(&self, prefix: &str) -> (r: Option<&str>)
-        ensures match r { Some(t) => strip_prefix_spec(self.s@, prefix@) == Some(t@), None => strip_prefix_spec(self.s@, prefix@) is None }
-    { unimplemented!() }
-}
+/// `str::strip_prefix` (generic over the unstable Pattern trait); for a string pattern it is strip_prefix_spec
+pub uninterp spec fn pat_strip<P>(s: Seq<char>, p: P) -> Option<Seq<char>>;
+#[verifier::allow(undeclared_external_trait)]
+pub assume_specification<'a, P: core::str::pattern::Pattern>[ str::strip_prefix::<P> ](s: &'a str, p: P) -> (r: Option<&'a str>)
+    ensures match r { Some(t) => pat_strip::<P>(s@, p) == Some(t@), None => pat_strip::<P>(s@, p) is None };
+pub axiom fn axiom_str_strip(s: Seq<char>, p: &str)
+    ensures pat_strip::<&str>(s, p) == strip_prefix_spec(s, p@);
 /// every key once, in unspecified order
-pub open spec fn keys_listed(m: TaskMapS, r: Seq<TaskKey>) -> bool {
-    &&& forall|i: int| 0 <= i < r.len() ==> m.dom().contains((#[trigger] r[i]).s@)
-    &&& forall|k: Seq<char>| m.dom().contains(k) ==> exists|i: int| 0 <= i < r.len() && (#[trigger] r[i]).s@ == k
+pub open spec fn keys_listed(m: TaskMapS, r: Seq<&String>) -> bool {
+    &&& forall|i: int| 0 <= i < r.len() ==> m.dom().contains((#[trigger] r[i])@)
+    &&& forall|k: Seq<char>| m.dom().contains(k) ==> exists|i: int| 0 <= i < r.len() && (#[trigger] r[i])@ == k
 }
 impl TaskMap {
     /// `HashMap::keys()` consumed by a `for` loop
     #[verifier::external_body]
-    pub fn keys(&self) -> (r: Vec<TaskKey>) ensures keys_listed(self@, r@) { unimplemented!() }
+    pub fn keys(&self) -> (r: Vec<&String>) ensures keys_listed(self@, r@) { unimplemented!() }
 }
 // ---- Display texts used as property keys (rule R32: `format!("LIT{x}")` = the literal followed by the Display text of x) ----------
 /// the text `Display` renders (TRUSTED per implementing type; the Display impls of Uuid/Tag/i64/String are not verified)
